@@ -40,7 +40,7 @@ class DPT2ByteUnsigned(DPTNumeric):
                 raise ValueError("Value out of range")
             knx_value = int(value) // cls.resolution
             return DPTArray((knx_value >> 8, knx_value & 0xFF))
-        except ValueError as err:
+        except (ValueError, OverflowError) as err:
             raise ConversionError(
                 f"Could not serialize {cls.dpt_name()}", value=value
             ) from err
